@@ -217,3 +217,15 @@ Example C19_resolve_examples :
   Shell.PathAlg.resolve_parts [[]; [97]; [98]; [46; 46]; [99]] = Some [[]; [97]; [99]] /\
   Shell.PathAlg.resolve_parts [[]; [97]; [98]; [99]; [100]; [46; 46]; [101]] = Some [[]; [97]; [98]; [99]; [101]].
 Proof. split; reflexivity. Qed.
+
+Theorem C19_stem_suffix_split_the_name : forall parts,
+  Shell.PathAlg.stem parts ++ Shell.PathAlg.suffix parts = Shell.PathAlg.name parts.
+Proof. exact Shell.PathAlg.stem_suffix. Qed.
+Print Assumptions C19_stem_suffix_split_the_name.
+
+Theorem C19_with_name_replaces_the_last_component : forall a b r nm,
+  Shell.PathAlg.canonical (a :: b :: r) = true -> Shell.PathAlg.slash_free nm = true -> nm <> [] ->
+  Shell.PathAlg.with_name (a :: b :: r) nm = Some (removelast (a :: b :: r) ++ [nm]) /\
+  Shell.PathAlg.name (removelast (a :: b :: r) ++ [nm]) = nm.
+Proof. exact Shell.PathAlg.with_name_last. Qed.
+Print Assumptions C19_with_name_replaces_the_last_component.
